@@ -137,8 +137,8 @@
 // @reg name=promo_to_mut_odd props=C01,C02,C03,C04,C07,C08,C16 tier=quick flags=leak group=step note=promo_to_mut_odd_address
 // @reg name=promo_drop_even props=C02,C03,C16 tier=quick flags=leak group=step note=promo_drop_even_address
 // @reg name=promo_drop_odd props=C02,C03,C16 tier=quick flags=leak group=step note=promo_drop_odd_address
-// @reg name=promo_view_ops_even props=C01,C02,C03,C07,C13,C16 tier=quick flags=leak group=step note=promo_view_ops_even_address
-// @reg name=promo_view_ops_odd props=C01,C02,C03,C07,C13,C16 tier=quick flags=leak group=step note=promo_view_ops_odd_address
+// @reg name=promo_view_ops_even props=C01,C02,C03,C07,C08,C13,C16 tier=quick flags=leak group=step note=promo_view_ops_even_address
+// @reg name=promo_view_ops_odd props=C01,C02,C03,C07,C08,C13,C16 tier=quick flags=leak group=step note=promo_view_ops_odd_address
 // @reg name=ctor_from_vec_exact_even props=C01,C02,C03,C07,C16 tier=quick flags=leak group=step note=ctor_from_vec_exact_even_address
 // @reg name=ctor_from_vec_exact_odd props=C01,C02,C03,C07,C16 tier=quick flags=leak group=step note=ctor_from_vec_exact_odd_address
 
@@ -289,7 +289,7 @@
 
     // ================================================================================== view arithmetic (representation independent,
     // except truncate which promotes a promotable handle first)
-    // @h props=C01,C02,C03,C07,C13 tier=quick flags=leak group=step note=slice/split/advance/truncate/clear_on_shared_state
+    // @h props=C01,C02,C03,C07,C08,C13 tier=quick flags=leak group=step note=slice/split/advance/truncate/clear_on_shared_state
     #[kani::proof]
     #[cfg_attr(not(verif_big), kani::unwind(6))]
     #[cfg_attr(verif_big, kani::unwind(11))]
@@ -425,6 +425,11 @@
             set_cnt(g, 1 + extra_handles);
         }
         drop(other);
+        // C08: with every other handle gone a non-empty handle is again the sole owner and says so (a view operation on a
+        // never-cloned promotable buffer must not leave a phantom reference behind)
+        if hi > lo {
+            assert!(b.is_unique());
+        }
     }
 
     // ================================================================================== promotable (never cloned)
